@@ -17,6 +17,7 @@ import (
 type GB struct {
 	V any
 	W any
+	L []any // a slice whose ELEMENT type is an interface: its elements are slots like V and W
 	N *GB
 }
 
@@ -24,8 +25,9 @@ type GB struct {
 type gbv struct {
 	K    string
 	I    int
-	V, W *gbv // brec: the two interface slots
-	N    *gbv // brec: the typed field
+	V, W *gbv   // brec: the two interface slots
+	L    []*gbv // brec: the elements of the []any field (nil = the nil slice)
+	N    *gbv   // brec: the typed field
 }
 
 func (g *gbv) show() string {
@@ -43,7 +45,15 @@ func (g *gbv) show() string {
 	case "bvar":
 		return fmt.Sprintf("?b%d", g.I)
 	}
-	return fmt.Sprintf("&GB{V:%s W:%s N:%s}", g.V.show(), g.W.show(), g.N.show())
+	l := "nil"
+	if g.L != nil {
+		ps := make([]string, len(g.L))
+		for i, e := range g.L {
+			ps[i] = e.show()
+		}
+		l = "[" + strings.Join(ps, " ") + "]"
+	}
+	return fmt.Sprintf("&GB{V:%s W:%s L:%s N:%s}", g.V.show(), g.W.show(), l, g.N.show())
 }
 
 // coq: the value as reflecttools sees it; `slot` = it sits in an interface-typed field
@@ -68,7 +78,15 @@ func (g *gbv) coq(slot bool, ni int) string {
 	case "bvar":
 		return wrap("(gvar " + coqN(uint64(ni+g.I)) + ")")
 	}
-	return wrap("(GStructPtr [" + g.V.coq(true, ni) + "; " + g.W.coq(true, ni) + "; " + g.N.coq(false, ni) + "])")
+	l := "(GSlice true [])"
+	if g.L != nil {
+		ps := make([]string, len(g.L))
+		for i, e := range g.L {
+			ps[i] = e.coq(true, ni)
+		}
+		l = "(GSlice false [" + strings.Join(ps, "; ") + "])"
+	}
+	return wrap("(GStructPtr [" + g.V.coq(true, ni) + "; " + g.W.coq(true, ni) + "; " + l + "; " + g.N.coq(false, ni) + "])")
 }
 
 type gbWorld struct {
@@ -130,7 +148,14 @@ func (w *gbWorld) rec(g *gbv) *GB {
 	case "bvar":
 		return w.bv[g.I]
 	}
-	return &GB{V: w.slot(g.V), W: w.slot(g.W), N: w.rec(g.N)}
+	var l []any
+	if g.L != nil {
+		l = make([]any, len(g.L))
+		for i, e := range g.L {
+			l[i] = w.slot(e)
+		}
+	}
+	return &GB{V: w.slot(g.V), W: w.slot(g.W), L: l, N: w.rec(g.N)}
 }
 
 type gbEq struct {
@@ -160,6 +185,12 @@ func genGBCase(r *rand.Rand) (ni, nb int, eqs []gbEq) {
 	}
 	rec = func(depth int) *gbv {
 		g := &gbv{K: "brec", V: slot(depth), W: slot(depth)}
+		if r.Intn(3) == 0 {
+			g.L = make([]*gbv, r.Intn(3))
+			for i := range g.L {
+				g.L[i] = slot(0)
+			}
+		}
 		switch {
 		case depth > 0 && r.Intn(3) == 0:
 			g.N = rec(depth - 1)
@@ -182,7 +213,17 @@ func genGBCase(r *rand.Rand) (ni, nb int, eqs []gbEq) {
 			}
 			return g
 		}
-		return &gbv{K: "brec", V: vary(g.V), W: vary(g.W), N: vary(g.N)}
+		h := &gbv{K: "brec", V: vary(g.V), W: vary(g.W), N: vary(g.N)}
+		if g.L != nil {
+			h.L = make([]*gbv, len(g.L))
+			for i, e := range g.L {
+				h.L[i] = vary(e)
+			}
+			if r.Intn(8) == 0 && len(h.L) > 0 {
+				h.L = h.L[:len(h.L)-1] // different lengths do not unify
+			}
+		}
+		return h
 	}
 	for n := 2 + r.Intn(3); n > 0; n-- {
 		if r.Intn(3) == 0 {
